@@ -76,6 +76,7 @@ func Harness_C13(n int, dealer int, layout int, anteOn int) {
 	if vFork(anyBlind) {
 		// KF-C13-NOBLINDS region: no small blind, no dealer blind, big blind configured
 		vAssertK(gs.Status.CurrentEvent == "BlindsRequested", "C13.waits-for-blinds", "KF-C13-NOBLINDS", vAnd(vAnd(sb == 0, db == 0), bb > 0))
+		vAssert(gs.Status.CurrentEvent == "BlindsRequested" && gs.Status.Round == "preflop", "C06.after-ante-the-hand-waits-for-blinds-on-the-preflop")
 		if gs.Status.CurrentEvent != "BlindsRequested" {
 			return
 		}
